@@ -123,8 +123,9 @@ def forbidden_hits():
 def build_tools():
     """(re)build nvextract and nvh from the harness sources (fast when cached)"""
     with Lock("gobuild"):
+        ov = overlay_json(hook_overlay())
         for name in ("nvextract", "nvh"):
-            rc, so, se = run(["go", "build", "-o", os.path.join(BIN, name), "./cmd/" + name], cwd=HARNESS, timeout=600)
+            rc, so, se = run(["go", "build", "-overlay", ov, "-o", os.path.join(BIN, name), "./cmd/" + name], cwd=HARNESS, timeout=600)
             if rc != 0:
                 return False, "go build %s failed:\n%s%s" % (name, so, se)
     return True, ""
@@ -280,6 +281,11 @@ TRUSTED_BASE_COMMON = [
     "axioms reported by #print axioms for every property theorem: subset of {propext, Classical.choice, Quot.sound}; no sorry/admit/native_decide/bv_decide/user axioms (grepped on every run)",
     "the Go harness (harness/cmd/nvh) and the Lean driver (lean/Driver) that execute model and implementation on the same inputs",
 ]
+
+
+def hook_overlay():
+    """files added to package netty at build time (never committed to /repo)"""
+    return {os.path.join(REPO, "zz_nv_hooks.go"): os.path.join(HARNESS, "overlay", "zz_nv_hooks.go.txt")}
 
 
 def overlay_json(mapping):
